@@ -18,28 +18,39 @@ def PB.swap (q : PB) : PB := { p := q.p.swap, ha := q.hb, hb := q.ha }
 
 theorem absB_swap (q : PB) : absB q.swap = (absB q).swap := rfl
 
-structure PInv (q : PB) : Prop where
-  inv : Inv (absB q)
+/-- A predicate on pairs of bind views that is preserved by the small steps of either side. -/
+structure Closed (I : BC → Prop) : Prop where
+  swap : ∀ {c : BC}, I c → I c.swap
+  starL : ∀ {c : BC} {v : BV} {ws : List Msg} {gs : List BEv}, I c → BStar c.a v ws gs → v.rng ≠ [] → I (c.actL v ws gs)
+  stepL : ∀ {c c' : BC}, I c → CStepL c c' → c'.a.rng ≠ [] → I c'
+
+theorem closed_inv : Closed Inv := ⟨Inv.swap, Inv.starL, fun h st hn => h.stepL st hn⟩
+
+structure PInv (I : BC → Prop) (q : PB) : Prop where
+  inv : I (absB q)
   neA : q.p.a.rng ≠ []
   neB : q.p.b.rng ≠ []
 
-theorem PInv.swap {q : PB} (h : PInv q) : PInv q.swap := ⟨by rw [absB_swap]; exact h.inv.swap, h.neB, h.neA⟩
+variable {I : BC → Prop}
+
+theorem PInv.swap (hI : Closed I) {q : PB} (h : PInv I q) : PInv I q.swap :=
+  ⟨by rw [absB_swap]; exact hI.swap h.inv, h.neB, h.neA⟩
 
 theorem ne_nil_of_isEmpty {l : List Nat} (h : l.isEmpty = false) : l ≠ [] := by
   intro h0; rw [h0] at h; cases h
 
 /-- After the left inbox was extended by a delivery or a cut (`c1`), the task runs. -/
-theorem inv_settleL {q : PB} {c1 : BC} {w : WsIn} (h1 : Inv c1)
+theorem inv_settleL (hI : Closed I) {q : PB} {c1 : BC} {w : WsIn} (h1 : I c1)
     (ha : c1.a = bview (opStep q.p.a (.deliver w)).1 (opStep q.p.a (.deliver w)).1.inbox)
     (hne : (applyOp q.p.a (.deliver w)).1.rng ≠ []) :
-    Inv (c1.actL (bview (applyOp q.p.a (.deliver w)).1 (applyOp q.p.a (.deliver w)).1.inbox)
+    I (c1.actL (bview (applyOp q.p.a (.deliver w)).1 (applyOp q.p.a (.deliver w)).1.inbox)
       (wireMsgs (applyOp q.p.a (.deliver w)).2.2)
       (callEvs q.p.a (.deliver w) (applyOp q.p.a (.deliver w)).2.1 ++ doneEvs (applyOp q.p.a (.deliver w)).2.2)) :=
-  h1.starL (ha ▸ bstar_deliver q.p.a w) hne
+  hI.starL h1 (ha ▸ bstar_deliver q.p.a w) hne
 
 /-- A stimulus of the LEFT endpoint. -/
-theorem PInv.stepA {q : PB} (h : PInv q) {st : Stim} {p' : PS} (hs : stepL q.p st = some p') :
-    PInv { p := p', ha := bgStep q.p.a q.ha (stimOp q.p st), hb := q.hb } := by
+theorem PInv.stepA (hI : Closed I) {q : PB} (h : PInv I q) {st : Stim} {p' : PS} (hs : stepL q.p st = some p') :
+    PInv I { p := p', ha := bgStep q.p.a q.ha (stimOp q.p st), hb := q.hb } := by
   simp only [stepL] at hs
   split at hs
   · rename_i q' hq
@@ -55,7 +66,7 @@ theorem PInv.stepA {q : PB} (h : PInv q) {st : Stim} {p' : PS} (hs : stepL q.p s
           split at hq
           · rename_i hc
             have := Option.some.inj hq; subst this
-            exact h.inv.starL (c := absB q) (bstar_call q.p.a op hc) hne
+            exact hI.starL (c := absB q) h.inv (bstar_call q.p.a op hc) hne
           · cases hq
         | deliver =>
           simp only [stimL] at hq
@@ -66,14 +77,14 @@ theorem PInv.stepA {q : PB} (h : PInv q) {st : Stim} {p' : PS} (hs : stepL q.p s
             · rename_i hm
               subst hm
               have := Option.some.inj hq; subst this
-              have g1 := h.inv.stepL (CStepL.lose (absB q) [.msg .close, .eof] (deafE q.p.a) (Or.inr rfl)) h.neA
-              have g2 := inv_settleL (q := q) (w := .msg .close) g1 (bview_deliver_close q.p.a).symm hne
+              have g1 := hI.stepL h.inv (CStepL.lose (absB q) [.msg .close, .eof] (deafE q.p.a) (Or.inr rfl)) h.neA
+              have g2 := inv_settleL hI (q := q) (w := .msg .close) g1 (bview_deliver_close q.p.a).symm hne
               simp only [stimOp, hba]
               exact g2
             · rename_i hm
               have := Option.some.inj hq; subst this
-              have g1 := h.inv.stepL (CStepL.dlv (absB q) m rest (deafE q.p.a) hba) h.neA
-              have g2 := inv_settleL (q := q) (w := .msg m) g1 (bview_deliver_msg q.p.a m hm).symm hne
+              have g1 := hI.stepL h.inv (CStepL.dlv (absB q) m rest (deafE q.p.a) hba) h.neA
+              have g2 := inv_settleL hI (q := q) (w := .msg m) g1 (bview_deliver_msg q.p.a m hm).symm hne
               simp only [stimOp, hba]
               exact g2
         | cut eof =>
@@ -81,9 +92,9 @@ theorem PInv.stepA {q : PB} (h : PInv q) {st : Stim} {p' : PS} (hs : stepL q.p s
           have := Option.some.inj hq2; subst this
           have hw : (if eof = true then WsIn.eof else WsIn.err) = .eof ∨ (if eof = true then WsIn.eof else WsIn.err) = .err := by
             cases eof <;> simp
-          have g1 := h.inv.stepL (CStepL.lose (absB q) [if eof = true then WsIn.eof else WsIn.err] (deafE q.p.a)
+          have g1 := hI.stepL h.inv (CStepL.lose (absB q) [if eof = true then WsIn.eof else WsIn.err] (deafE q.p.a)
             (Or.inl (by cases eof <;> rfl))) h.neA
-          have g2 := inv_settleL (q := q) g1 (bview_deliver_end q.p.a _ hw).symm hne
+          have g2 := inv_settleL hI (q := q) g1 (bview_deliver_end q.p.a _ hw).symm hne
           exact g2
       · cases st with
         | call op =>
@@ -102,30 +113,30 @@ theorem PInv.stepA {q : PB} (h : PInv q) {st : Stim} {p' : PS} (hs : stepL q.p s
   · cases hs
 
 /-- One stimulus of the pair. -/
-theorem PInv.step {q : PB} (h : PInv q) (s : Side) (st : Stim) : PInv (stepB q s st) := by
+theorem PInv.step (hI : Closed I) {q : PB} (h : PInv I q) (s : Side) (st : Stim) : PInv I (stepB q s st) := by
   cases s with
   | A =>
     simp only [stepB]
     cases hs : stepL q.p st with
     | none => exact h
-    | some p' => exact h.stepA hs
+    | some p' => exact h.stepA hI hs
   | B =>
     simp only [stepB]
     cases hs : stepL q.p.swap st with
     | none => exact h
-    | some p' => exact (h.swap.stepA (q := q.swap) hs).swap
+    | some p' => exact ((h.swap hI).stepA hI (q := q.swap) hs).swap hI
 
-theorem PInv.run {q : PB} (h : PInv q) (l : List (Side × Stim)) : PInv (runB q l) := by
+theorem PInv.run (hI : Closed I) {q : PB} (h : PInv I q) (l : List (Side × Stim)) : PInv I (runB q l) := by
   induction l generalizing q with
   | nil => exact h
-  | cons a l ih => obtain ⟨s, st⟩ := a; exact ih (h.step s st)
+  | cons a l ih => obtain ⟨s, st⟩ := a; exact ih (h.step hI s st)
 
 /-! ### The initial state -/
 
 theorem count_le_one_of_nodup {l : List Nat} (h : l.Nodup) (x : Nat) : l.count x ≤ 1 :=
   List.nodup_iff_count.mp h x
 
-theorem PInv.init (oa ob : Opts) {ra rb : List Nat} (cfg : Cfg ra rb) : PInv { p := PairAll.init oa ob ra rb } := by
+theorem PInv.init (oa ob : Opts) {ra rb : List Nat} (cfg : Cfg ra rb) : PInv Inv { p := PairAll.init oa ob ra rb } := by
   refine ⟨⟨?_, ?_, ?_, ?_, ?_, ⟨?_, ?_, ?_⟩, ⟨?_, ?_, ?_⟩⟩, cfg.neA, cfg.neB⟩
   · intro x
     have hc : (ra ++ rb).count x ≤ 1 := count_le_one_of_nodup cfg.nodup x
@@ -148,6 +159,6 @@ theorem PInv.init (oa ob : Opts) {ra rb : List Nat} (cfg : Cfg ra rb) : PInv { p
 /-- In every reachable state of the pair (with records), the invariant of the pair of bind views holds. -/
 theorem reach_inv (oa ob : Opts) {ra rb : List Nat} (cfg : Cfg ra rb) (l : List (Side × Stim)) :
     Inv (absB (runB { p := PairAll.init oa ob ra rb } l)) :=
-  ((PInv.init oa ob cfg).run l).inv
+  ((PInv.init oa ob cfg).run closed_inv l).inv
 
 end Penguin.BindAll
